@@ -19,6 +19,7 @@ def gen_script(rng, nops, distinct_keys):
     used_keys = set()
     inited = False
     ngroups = 3
+    lstate = {}                      # what the generator believes about each present system: configured / active / paused / stopped
     all_before = rng.chance(1, 2)    # scripts mixing 'after' and 'before' towards earlier systems may form cycles: one style per script
     def fresh_prio(g):
         for _ in range(50):
@@ -28,7 +29,16 @@ def gen_script(rng, nops, distinct_keys):
                 return p
         return rng.range(31, 1000)
     for _ in range(nops):
-        c = rng.weighted([('add', 30 if len(added) < 12 else 0), ('remove', 8 if present else 0), ('init', 8), ('update', 25), ('setgroup', 0 if (distinct_keys or inited) else 6)])
+        act = [x for x in present if lstate.get(x) == 'active']
+        pau = [x for x in present if lstate.get(x) == 'paused']
+        c = rng.weighted([('add', 30 if len(added) < 12 else 0), ('remove', 8 if present else 0), ('init', 8), ('update', 25), ('setgroup', 0 if (distinct_keys or inited) else 6),
+                          ('pause', 5 if act else 0), ('resume', 4 if pau else 0), ('stop', 2 if pau else 0)])
+        if c == 'pause':
+            n = rng.pick(act); lstate[n] = 'paused'; lines.append('pause %d' % n); continue
+        if c == 'resume':
+            n = rng.pick(pau); lstate[n] = 'active'; lines.append('resume %d' % n); continue
+        if c == 'stop':
+            n = rng.pick(pau); lstate[n] = 'stopped'; lines.append('stop %d' % n); continue
         if c == 'add':
             n = rng.pick([x for x in range(12) if x not in added])
             g = rng.below(ngroups) if not distinct_keys else 0
@@ -53,13 +63,22 @@ def gen_script(rng, nops, distinct_keys):
             if g: tok += ' g=%d' % g
             if b: tok += ' b=' + ','.join(map(str, b))
             if a: tok += ' a=' + ','.join(map(str, a))
-            lines.append(tok); added.append(n); present.append(n)
+            lines.append(tok); added.append(n); present.append(n); lstate[n] = 'configured'
         elif c == 'remove':
             n = rng.pick(present); present.remove(n); lines.append('remove %d' % n)
         elif c == 'init':
-            lines.append('init'); inited = True
+            lines.append('init')
+            if not inited:       # only the first init configures and starts; later ones do nothing
+                for x in present:
+                    if lstate.get(x) == 'configured':
+                        lstate[x] = 'active'
+            inited = True
         elif c == 'update':
             lines.append('update')
+            if inited:
+                for x in present:
+                    if lstate.get(x) == 'configured':
+                        lstate[x] = 'active'
         elif c == 'setgroup':
             lines.append('setgroup %d %d' % (rng.below(ngroups), rng.range(-3, 3)))
     lines += ['init', 'update', 'update', 'teardown']
